@@ -313,7 +313,7 @@ def match_known(prop, check, tags, known):
         if k.get('status') != 'known' or k.get('property') != prop:
             continue
         m = k.get('match', {})
-        if m.get('check') == check and (m.get('tag') is None or m.get('tag') in tags):
+        if (m.get('check') is None or m.get('check') == check) and (m.get('tag') is None or m.get('tag') in tags) and (m.get('check') or m.get('tag')):
             return k
     return None
 
